@@ -1,4 +1,4 @@
-import EvyV.Props.C02Stmt
+import EvyV.Props.C02Builtin
 import EvyV.Props.C05
 /-!
 C02: type soundness of the evaluator model.
@@ -54,10 +54,6 @@ abbrev PL (s : Ty) : Store → List (Val F) → Prop := fun S vs => ∀ v ∈ vs
 abbrev PP (s : Ty) : Store → List (Key × Val F) → Prop := fun S ps => ∀ p ∈ ps, VT S p.2 s
 abbrev PO : Store → Option (Val F) → Prop := fun S o => ∀ v, o = some v → VT S v .num
 abbrev PA : Store → List (Val F) → Prop := fun S vs => ∀ v ∈ vs, ∃ t, VT S v t
-
-/-- positional typing of an argument list -/
-abbrev PZ (ts : List Ty) : Store → List (Val F) → Prop :=
-  fun S vs => vs.length = ts.length ∧ ∀ (i : Nat) v pt, vs[i]? = some v → ts[i]? = some pt → VT S v pt
 
 /-- the value of a call: of the result type, if the function has one -/
 abbrev PR (ρ : Option Ty) : Store → Val F → Prop := fun S v => ∀ t, ρ = some t → VT S v t
@@ -120,6 +116,11 @@ structure AllSound (n : Nat) : Prop where
     GoodX Gg (fun _ _ => True) S Gs (evalNumOr ops ext prog n oe d st)
   call : ∀ (name : Str) (args : List (Expr F)) (sig : FSig) st Gs S, Φ name = some sig → args.length = sig.params.length →
     (∀ (i : Nat) a pt, args[i]? = some a → sig.params[i]? = some pt → Typed Φ (lookupG Gs Gg) a pt) → StOk S Gs Gg st →
+    GoodX Gg (PR sig.ret) S Gs (evalCall ops ext prog n name args st)
+  builtin : ∀ (name : Str) (args : List (Expr F)) (sig : BSig) (tys : List Ty) st Gs S, builtinSig name = some sig →
+    sig.params.length ≤ args.length → (sig.rest = none → args.length = sig.params.length) → args.length = tys.length →
+    (∀ (i : Nat) a ta, args[i]? = some a → tys[i]? = some ta → Typed Φ (lookupG Gs Gg) a ta) →
+    (∀ (i : Nat) ta, tys[i]? = some ta → sig.paramAt i ta = true) → StOk S Gs Gg st →
     GoodX Gg (PR sig.ret) S Gs (evalCall ops ext prog n name args st)
   print : ∀ (args : List (Expr F)) st Gs S, (∀ a ∈ args, ∃ t, Typed Φ (lookupG Gs Gg) a t) → StOk S Gs Gg st →
     GoodX Gg (fun _ (_ : Val F) => True) S Gs (evalCall ops ext prog n (lit "print") args st)
@@ -252,7 +253,7 @@ theorem slice_case (n : Nat) (ih : AllSound ops ext prog Φ Gg n) {Gs : List SEn
 
 /-! ### the induction -/
 
-theorem all_sound (hx : ExtOk ext) (hp : ProgOk Φ Gg prog) (n : Nat) : AllSound ops ext prog Φ Gg n := by
+theorem all_sound (hx : ExtOk ext) (hg : GgOk Gg) (hp : ProgOk Φ Gg prog) (n : Nat) : AllSound ops ext prog Φ Gg n := by
   induction n with
   | zero =>
     constructor <;> intros <;>
@@ -415,6 +416,9 @@ theorem all_sound (hx : ExtOk ext) (hp : ProgOk Φ Gg prog) (n : Nat) : AllSound
               subst this
               exact ⟨S1, g1, hok1, hw⟩
             · exact trivial
+        | builtin name args sig tys _ hsig hret hle hfix hlen hargs hpred =>
+          simp only
+          exact (ih.builtin name args sig tys st Gs S hsig hle hfix hlen hargs hpred hok).imp Gg (fun S' v h => h t hret)
         | call name args sig _ hphi hret hlen hargs =>
           simp only
           exact (ih.call name args sig st Gs S hphi hlen hargs hok).imp Gg (fun S' v h => h t hret)
@@ -606,6 +610,23 @@ theorem all_sound (hx : ExtOk ext) (hp : ProgOk Φ Gg prog) (n : Nat) : AllSound
             obtain ⟨hbt, hfn⟩ := hret t ht
             obtain ⟨v, hv⟩ := C05.typed_function_returns_a_value ops ext prog n fd.body _ s4 _ hbt hfn hq2
             cases hv
+    · -- a built-in of the typed fragment
+      intro name args sig tys st Gs S hsig hle hfix hlen hargs hpred hok
+      unfold evalCall
+      have h1 := ih.evalZ args tys st Gs S hlen hargs hok
+      cases hq : evalList ops ext prog n args st with
+      | err o s1 => rw [hq] at h1; exact h1
+      | ok vs s1 =>
+        rw [hq] at h1
+        obtain ⟨S1, g1, hok1, hvl, hvs⟩ := h1
+        obtain ⟨hnt, r, hcb, hgood⟩ := builtin_ok ops ext Gg hx hg name sig tys vs s1 S1 hsig (by omega) (fun h => by have := hfix h; omega)
+          ⟨hvl, hvs⟩ hpred hok1.heap hok1.global
+        simp only [hcb, hnt, if_false]
+        cases r with
+        | err o s2 => exact hgood
+        | ok v s2 =>
+          obtain ⟨S2, g2, hk2, hgl2, hl2, hv2⟩ := hgood
+          exact ⟨S2, g1.trans g2, ⟨by rw [hl2]; exact hok1.locals.mono g2, hgl2, hk2⟩, hv2⟩
     · -- print
       intro args st Gs S hargs hok
       unfold evalCall
@@ -876,6 +897,15 @@ theorem all_sound (hx : ExtOk ext) (hp : ProgOk Φ Gg prog) (n : Nat) : AllSound
             have hls := loop_scope_ok Gg hok1 lv .str hlv (.str []) (.str _)
             have hf := ih.execF ρ lv .str (.map a m.order) body _ Gs S1 hlv rfl hbody hls
             exact for_finish Gg ρ _ g1 _ hf
+        | callBi _ name args sig tys hsig hle hfix hlen hargs hpred =>
+          simp only
+          have h1 := ih.builtin name args sig tys st Gs S hsig hle hfix hlen hargs hpred hok
+          cases hq : evalCall ops ext prog n name args st with
+          | err o s1 => rw [hq] at h1; exact h1
+          | ok v s1 =>
+            rw [hq] at h1
+            obtain ⟨S1, g1, hok1, _⟩ := h1
+            exact ⟨S1, Gs, g1, hok1, rfl, rfl, fun _ => rfl, trivial⟩
         | callFn _ name args sig hphi hlen hargs =>
           simp only
           have h1 := ih.call name args sig st Gs S hphi hlen hargs hok
@@ -1052,12 +1082,12 @@ theorem all_sound (hx : ExtOk ext) (hp : ProgOk Φ Gg prog) (n : Nat) : AllSound
 /-- **type soundness, expressions** (calls of user-defined functions included): a well-typed
 expression evaluated for any number of steps in a well-typed state yields a value of its static type
 in a well-typed state, or ends in a documented outcome -/
-theorem expr_sound (hx : ExtOk ext) (hp : ProgOk Φ Gg prog) (fuel : Nat) (e : Expr F) (st : St F) (Gs : List SEnv) (S : Store) (t : Ty)
+theorem expr_sound (hx : ExtOk ext) (hg : GgOk Gg) (hp : ProgOk Φ Gg prog) (fuel : Nat) (e : Expr F) (st : St F) (Gs : List SEnv) (S : Store) (t : Ty)
     (hty : Typed Φ (lookupG Gs Gg) e t) (hok : StOk S Gs Gg st) :
     match evalE ops ext prog fuel e st with
     | .ok v st' => ∃ S', Grows S S' ∧ StOk S' Gs Gg st' ∧ VT S' v t
     | .err o _ => Doc o := by
-  have h := (all_sound ops ext prog Φ Gg hx hp fuel).evalE e st Gs S t hty hok
+  have h := (all_sound ops ext prog Φ Gg hx hg hp fuel).evalE e st Gs S t hty hok
   cases hq : evalE ops ext prog fuel e st with
   | err o s => rw [hq] at h; exact h
   | ok v s => rw [hq] at h; exact h
@@ -1065,12 +1095,12 @@ theorem expr_sound (hx : ExtOk ext) (hp : ProgOk Φ Gg prog) (fuel : Nat) (e : E
 /-- **type soundness, statements**: a well-typed statement list run for any number of steps in a
 well-typed state ends in a well-typed state (outer scopes as typed, a returned value of the result
 type) or in a documented outcome -/
-theorem stmt_sound (hx : ExtOk ext) (hp : ProgOk Φ Gg prog) (fuel : Nat) (ρ : Option Ty) (b : List (Stmt F)) (st : St F)
+theorem stmt_sound (hx : ExtOk ext) (hg : GgOk Gg) (hp : ProgOk Φ Gg prog) (fuel : Nat) (ρ : Option Ty) (b : List (Stmt F)) (st : St F)
     (Gs : List SEnv) (S : Store) (hty : BTyped Φ Gg ρ Gs b) (hok : StOk S Gs Gg st) :
     match execStmts ops ext prog fuel b st with
     | .ok c st' => ∃ S' Gx, Grows S S' ∧ StOk S' Gx Gg st' ∧ Gx.tail = Gs.tail ∧ Gx.length = Gs.length ∧ ComplOk S' ρ c
     | .err o _ => Doc o := by
-  have h := (all_sound ops ext prog Φ Gg hx hp fuel).execB ρ b st Gs S hty hok
+  have h := (all_sound ops ext prog Φ Gg hx hg hp fuel).execB ρ b st Gs S hty hok
   cases hq : execStmts ops ext prog fuel b st with
   | err o s => rw [hq] at h; exact h
   | ok c s => rw [hq] at h; exact h
@@ -1078,14 +1108,14 @@ theorem stmt_sound (hx : ExtOk ext) (hp : ProgOk Φ Gg prog) (fuel : Nat) (ρ : 
 /-- **type soundness, calls**: a call of a user-defined function with arguments of the parameter types
 returns, if the function has a result type, a value of that type (it cannot fall off the end of the
 body), leaves the caller's scopes as they were and the globals and heap well-typed -/
-theorem call_sound (hx : ExtOk ext) (hp : ProgOk Φ Gg prog) (fuel : Nat) (name : Str) (args : List (Expr F)) (sig : FSig)
+theorem call_sound (hx : ExtOk ext) (hg : GgOk Gg) (hp : ProgOk Φ Gg prog) (fuel : Nat) (name : Str) (args : List (Expr F)) (sig : FSig)
     (st : St F) (Gs : List SEnv) (S : Store) (hphi : Φ name = some sig) (hlen : args.length = sig.params.length)
     (hargs : ∀ (i : Nat) a pt, args[i]? = some a → sig.params[i]? = some pt → Typed Φ (lookupG Gs Gg) a pt)
     (hok : StOk S Gs Gg st) :
     match evalCall ops ext prog fuel name args st with
     | .ok v st' => ∃ S', Grows S S' ∧ StOk S' Gs Gg st' ∧ ∀ t, sig.ret = some t → VT S' v t
     | .err o _ => Doc o := by
-  have h := (all_sound ops ext prog Φ Gg hx hp fuel).call name args sig st Gs S hphi hlen hargs hok
+  have h := (all_sound ops ext prog Φ Gg hx hg hp fuel).call name args sig st Gs S hphi hlen hargs hok
   cases hq : evalCall ops ext prog fuel name args st with
   | err o s => rw [hq] at h; exact h
   | ok v s => rw [hq] at h; exact h
@@ -1093,17 +1123,17 @@ theorem call_sound (hx : ExtOk ext) (hp : ProgOk Φ Gg prog) (fuel : Nat) (name 
 /-- **accepted programs never go wrong** (for the typed fragment of the model): running the top-level
 statements of a well-typed program never ends with an internal error or a Go panic, for any number
 of steps, any oracle and any state that is well-typed for the program's globals -/
-theorem program_never_goes_wrong (hx : ExtOk ext) (hp : ProgOk Φ Gg prog) (fuel : Nat) (st st' : St F) (S : Store)
+theorem program_never_goes_wrong (hx : ExtOk ext) (hg : GgOk Gg) (hp : ProgOk Φ Gg prog) (fuel : Nat) (st st' : St F) (S : Store)
     (hty : BTyped Φ Gg none [] prog.stmts) (hok : StOk S [] Gg st) (w : String) :
     execStmts ops ext prog fuel prog.stmts st ≠ .err (.internal w) st' ∧
     execStmts ops ext prog fuel prog.stmts st ≠ .err (.goPanic w) st' := by
-  have h := stmt_sound ops ext prog Φ Gg hx hp fuel none prog.stmts st [] S hty hok
+  have h := stmt_sound ops ext prog Φ Gg hx hg hp fuel none prog.stmts st [] S hty hok
   constructor <;> intro hq <;> rw [hq] at h <;> exact h
 
-theorem expr_never_goes_wrong (hx : ExtOk ext) (hp : ProgOk Φ Gg prog) (fuel : Nat) (e : Expr F) (st st' : St F) (Gs : List SEnv)
+theorem expr_never_goes_wrong (hx : ExtOk ext) (hg : GgOk Gg) (hp : ProgOk Φ Gg prog) (fuel : Nat) (e : Expr F) (st st' : St F) (Gs : List SEnv)
     (S : Store) (t : Ty) (hty : Typed Φ (lookupG Gs Gg) e t) (hok : StOk S Gs Gg st) (w : String) :
     evalE ops ext prog fuel e st ≠ .err (.internal w) st' ∧ evalE ops ext prog fuel e st ≠ .err (.goPanic w) st' := by
-  have h := expr_sound ops ext prog Φ Gg hx hp fuel e st Gs S t hty hok
+  have h := expr_sound ops ext prog Φ Gg hx hg hp fuel e st Gs S t hty hok
   constructor <;> intro hq <;> rw [hq] at h <;> exact h
 
 end EvyV.TS
